@@ -11,6 +11,7 @@ oracle:  (main detector) generated test suites whose tests share converted submo
          test must be identical.  The in-process harness vh-memo repeats it at API level
          (build_ir_cached / ProtoModuleCache hits, compute_recurring_set, driven port traces).
 """
+import hashlib
 import json
 import os
 import random
@@ -164,13 +165,13 @@ def run_cli(veryl, suite, root, tag, order=None, only=None, reuse=True, cpu=None
     return r
 
 
-def plan_runs(suite, rng_seed):
+def plan_runs(suite, rng_seed, norders=2):
     """list of (tag, kwargs) for one suite"""
     rng = random.Random(rng_seed)
     names = [t["name"] for t in suite["tests"]]
     mb = suite["opts"]["min_bytes"]
     runs = []
-    for k, od in enumerate(G.orders(rng, names, 3)):
+    for k, od in enumerate(G.orders(rng, names, norders)):
         runs.append(("seq%d" % k, {"order": od, "reuse": True, "single": True, "min_bytes": mb}))
     runs.append(("par", {"order": None, "reuse": True, "single": False, "min_bytes": mb}))
     runs.append(("noreuse", {"order": names, "reuse": False, "single": True, "min_bytes": mb}))
@@ -179,33 +180,55 @@ def plan_runs(suite, rng_seed):
     return runs
 
 
-def exec_suite(veryl, suite, root, rng_seed, cpus):
+def _sid(name):
+    return sum(ord(c) for c in name)
+
+
+def exec_suite(veryl, suite, root, rng_seed, cpus, norders=2):
     """run every mode of one suite; returns {tag: Run}"""
     res = {}
     sroot = os.path.join(root, suite["name"])
     os.makedirs(sroot, exist_ok=True)
-    for j, (tag, kw) in enumerate(plan_runs(suite, rng_seed)):
-        cpu = cpus[(hash(suite["name"]) + j) % len(cpus)] if kw.get("single") else None
+    for j, (tag, kw) in enumerate(plan_runs(suite, rng_seed, norders)):
+        cpu = cpus[(_sid(suite["name"]) * 7 + j) % len(cpus)] if kw.get("single") else None
         res[tag] = run_cli(veryl, suite, sroot, tag, order=kw.get("order"), only=kw.get("only"),
                            reuse=kw["reuse"], cpu=cpu, min_bytes=kw.get("min_bytes"))
     shutil.rmtree(sroot, ignore_errors=True)
     return res
 
 
-def first_vcd_diff(a, b):
+KNOWN_CLOCK_KEY = "vcd-reused-dut-clock-port-flat"
+
+
+def vcd_diff(a, b):
+    """(key, description) or None.  key = KNOWN_CLOCK_KEY when the ONLY difference is the known
+    one: clock ports (`clk`) of instances at/below a de-aliased reuse boundary stay constant in the
+    waveform of the shared-cache run while they toggle in the reference run."""
     if a is None or b is None:
-        return "VCD file missing in one run"
-    for k in sorted(set(a) | set(b)):
-        if a.get(k) != b.get(k):
-            xa, xb = a.get(k), b.get(k)
-            if xa is None or xb is None:
-                return "signal %s present in only one run" % k
-            for i in range(max(len(xa), len(xb))):
-                va = xa[i] if i < len(xa) else None
-                vb = xb[i] if i < len(xb) else None
-                if va != vb:
-                    return "signal %s: %s vs %s (change #%d)" % (k, va, vb, i)
-    return None
+        return ("vcd", "VCD file missing in one run")
+    diffs = [k for k in sorted(set(a) | set(b)) if a.get(k) != b.get(k)]
+    if not diffs:
+        return None
+    other = []
+    for k in diffs:
+        xa, xb = a.get(k), b.get(k)
+        is_clk_port = k.split(".")[-1] == "clk" and k.count(".") >= 2
+        if is_clk_port and xa is not None and xb is not None and len(xa) == 1 and len(xb) > 1:
+            continue
+        other.append(k)
+    if not other:
+        return (KNOWN_CLOCK_KEY, "%d clock port(s) of a reused DUT are constant in the waveform (e.g. %s = %s, reference %s...)" % (
+            len(diffs), diffs[0], a[diffs[0]], b[diffs[0]][:3]))
+    k = other[0]
+    xa, xb = a.get(k), b.get(k)
+    if xa is None or xb is None:
+        return ("vcd", "signal %s present in only one run" % k)
+    for i in range(max(len(xa), len(xb))):
+        va = xa[i] if i < len(xa) else None
+        vb = xb[i] if i < len(xb) else None
+        if va != vb:
+            return ("vcd", "signal %s: %s vs %s (change #%d); %d signals differ" % (k, va, vb, i, len(diffs)))
+    return ("vcd", "signal %s differs" % k)
 
 
 def judge_suite(suite, res):
@@ -246,10 +269,11 @@ def judge_suite(suite, res):
                     n, tag, k, la[k] if k < len(la) else None, lb[k] if k < len(lb) else None),
                     {"run": tag, "test": n, "got": got["output"], "want": ref[n]["output"]}))
             elif suite["opts"]["wave"]:
-                df = first_vcd_diff(got.get("vcd"), ref[n].get("vcd"))
+                df = vcd_diff(got.get("vcd"), ref[n].get("vcd"))
                 if df:
-                    bad.append(("cli-vcd", "test %s: waveform differs in run %s from the fresh-process run: %s" % (n, tag, df),
-                                {"run": tag, "test": n, "diff": df}))
+                    key = df[0] if df[0] == KNOWN_CLOCK_KEY and tag != "noreuse" else "cli-vcd"
+                    bad.append((key, "test %s: waveform (--wave) differs in run %s from the fresh-process run: %s" % (n, tag, df[1]),
+                                {"run": tag, "test": n, "diff": df[1]}))
     return bad
 
 
@@ -302,9 +326,13 @@ def harness_case(binary, suite, root, tag, mode, seq, reuse, recurring, stim_see
     if not ol or not ol[-1].startswith("OK "):
         return None, (ol[-1] if ol else "rc=%d %s" % (rc, err[-300:])), hits
     try:
-        return json.loads(ol[-1][3:]), "", hits
+        j = json.loads(ol[-1][3:])
     except ValueError:
         return None, "unparsable harness output", hits
+    if mode == "tb":
+        for ent in j["results"]:
+            ent["trace"] = parse_vcd(ent["trace"]) if ent.get("trace") else {}
+    return j, "", hits
 
 
 def dut_tops(suite):
@@ -321,7 +349,7 @@ def harness_suite(binary, suite, root, rng_seed, cpus):
     sroot = os.path.join(root, suite["name"] + "_h")
     os.makedirs(sroot, exist_ok=True)
     mb = suite["opts"]["min_bytes"]
-    cpu = cpus[hash(suite["name"]) % len(cpus)]
+    cpu = cpus[(_sid(suite["name"]) * 7 + 3) % len(cpus)]
     # tb mode: a sequence with repetitions (second request of a top = ProtoModuleCache hit)
     seq = list(names)
     rng.shuffle(seq)
@@ -354,8 +382,13 @@ def harness_suite(binary, suite, root, rng_seed, cpus):
                 continue
             for fld in ("verdict", "output", "trace"):
                 if ent.get(fld) != want.get(fld):
-                    bad.append(("harness-" + fld, "in-process %s mode: request #%d (top %s) with shared caches differs from the "
-                                "uncached conversion in %s" % (mode, i, ent["top"], fld),
+                    key, extra = "harness-" + fld, ""
+                    if fld == "trace" and mode == "tb":
+                        df = vcd_diff(ent.get(fld), want.get(fld))
+                        key = df[0] if df[0] == KNOWN_CLOCK_KEY else "harness-vcd"
+                        extra = ": " + df[1]
+                    bad.append((key, "in-process %s mode: request #%d (top %s) with shared caches differs from the "
+                                "uncached conversion in %s%s" % (mode, i, ent["top"], fld, extra),
                                 {"mode": mode, "seq": sq, "index": i, "top": ent["top"], "field": fld,
                                  "got": str(ent.get(fld))[:600], "want": str(want.get(fld))[:600], "stim_seed": stim}))
                     break
@@ -450,7 +483,7 @@ def run(tier, seed, replay):
 
         def work(i):
             s = suites[i]
-            out = exec_suite(veryl, s, root, run_seeds[i], cpus)
+            out = exec_suite(veryl, s, root, run_seeds[i], cpus, 2 if tier == "quick" else 3)
             hb, hs = harness_suite(hbin, s, root, run_seeds[i], cpus)
             return i, out, hb, hs
 
@@ -484,7 +517,7 @@ def run(tier, seed, replay):
             statuses = sorted(set(t["status"] for r in out.values() if r.tests for t in r.tests.values()))
             res.hist("verdicts_seen", ",".join(statuses))
             if hits > 0 and s["tags"]["recurring_specs"] >= 1:
-                nontrivial.add(s["name"] + json.dumps(s["opts"], sort_keys=True) + str(hash(s["lib"])))
+                nontrivial.add(hashlib.sha256((json.dumps(s["opts"], sort_keys=True) + G.suite_src(s)).encode()).hexdigest())
             if i < 3:
                 res.sample({"suite": s["name"], "opts": o, "tags": s["tags"], "stmt_hits": hits,
                             "harness": hs, "tests": {n: (t["status"], t["output"][:60]) for n, t in (out["seq0"].tests or {}).items()}})
